@@ -86,7 +86,6 @@ func describeSel(c selCase, st d2model.State, el d2model.Eligibility) string {
 type selFailure struct {
 	check string // sub-check name
 	msg   string
-	known string // id of a matching known-finding signature, "" if none
 }
 
 // checkSelect evaluates one selection case. ok=false with a selFailure describes a violation.
@@ -271,6 +270,7 @@ func checkSelect(rec *stats.Recorder, c selCase) (f selFailure, ok bool) {
 			}
 		}
 		if c.EdgeRepeats > 0 {
+		edges:
 			for _, k := range []int64{0, 1, two53 / 2, two53 - 3, two53 - 2, two53 - 1} {
 				src.v = k
 				for i := 0; i < c.EdgeRepeats; i++ {
@@ -283,18 +283,18 @@ func checkSelect(rec *stats.Recorder, c selCase) (f selFailure, ok bool) {
 						continue
 					}
 					f := selFailure{check: "select-edge", msg: fmt.Sprintf("with rng.Float64() == %d/2^53 (%.17g): %s%s", k, float64(k)/float64(two53), m, desc)}
-					// signatures of known findings (active only while listed as open in known_findings.json)
+					// signatures of known findings (active only while listed as open in known_findings.json): a hit is
+					// counted and the remaining edge values are still probed
+					known := ""
 					switch {
-					case k == 0 && got != nil && el.Hosts[got.String()] == 0 && el.Positive:
-						f.check = "select-edge-u0"
-						if kf.Open("KF-C19-rng-zero-picks-zero-weight") {
-							f.known = "KF-C19-rng-zero-picks-zero-weight"
-						}
+					case k == 0 && got != nil && inSet(el, got) && el.Hosts[got.String()] == 0 && el.Positive:
+						f.check, known = "select-edge-u0", "KF-C19-rng-zero-picks-zero-weight"
 					case k >= two53-3 && el.Positive && (got == nil || !inSet(el, got)):
-						f.check = "select-edge-u1"
-						if kf.Open("KF-C19-rounding-skips-all-hosts") {
-							f.known = "KF-C19-rounding-skips-all-hosts"
-						}
+						f.check, known = "select-edge-u1", "KF-C19-rounding-skips-all-hosts"
+					}
+					if known != "" && kf.Open(known) {
+						rec.Known(known, kf.What(known), c)
+						continue edges
 					}
 					return f, false
 				}
@@ -372,10 +372,6 @@ func genAnnouncements(t *rapid.T, c *selCase, weights []float64) {
 }
 
 func reportSelect(rec *stats.Recorder, c selCase, f selFailure, fatal func(string)) {
-	if f.known != "" {
-		rec.Known(f.known, kf.What(f.known), c)
-		return
-	}
 	rec.Violation(f.check, f.msg, c)
 	fatal(f.msg)
 }
